@@ -1,7 +1,9 @@
 (* Properties/C16.v — alias / collect / transfer_col_references re-root a table without changing data. *)
 From Coq Require Import List String NArith ZArith Bool.
 From PDT Require Import Base.StableSort Model.Dtype Model.Value Model.Ops Model.Expr Model.RefSem
-     Model.Typing Model.Cache Proofs.RefLemmas Proofs.ScopeLemmas Proofs.CacheLemmas Proofs.SubqueryLemmas.
+     Model.Typing Model.SqlCompile Model.PlCompile Model.Cache Proofs.RefLemmas Proofs.ScopeLemmas Proofs.CacheLemmas Proofs.SubqueryLemmas
+     Proofs.SqlCompileLemmas Proofs.PlCompileLemmas.
+From PDTGen Require Import Catalogue.
 Import ListNotations.
 Open Scope list_scope.
 
@@ -41,3 +43,33 @@ Print Assumptions alias_metadata.
 Theorem rerooted_table_accepts_every_verb : forall c v r, requires_subquery false (upd_marker c) v r = None.
 Proof. exact alias_unblocks_proof. Qed.
 Print Assumptions rerooted_table_accepts_every_verb.
+
+(* BOTH BACKENDS COMPILE THE RE-ROOTED TABLE CORRECTLY (all data).  Polars: alias() hands out new column identities
+   and leaves the frame untouched (the keys of name_in_df are renamed); any pipeline of the fragment may precede
+   and follow, the exported frame is the reference table.  SQL: alias() followed by a verb that needs a subquery
+   (the marker) nests the query built so far, the outer columns carry the new identities. *)
+Theorem polars_compiles_alias_correctly : forall d c m st,
+  pl_compile d (Alias c (Some m)) = Some st -> pflat_ok d (Alias c (Some m)) = true ->
+  pl_export st = export_ref (do_alias (sem_ref d c) (Some m)).
+Proof. intros d c m st C F. apply (pl_compile_correct_proof d (Alias c (Some m)) st C F). Qed.
+Print Assumptions polars_compiles_alias_correctly.
+
+Theorem sql_compiles_alias_subquery_correctly : forall d c m cq,
+  compile (SubqueryMarker (Alias c (Some m))) = Some cq -> flat_ok (SubqueryMarker (Alias c (Some m))) = true ->
+  sem_query d cq = export_ref (do_alias (sem_ref d c) (Some m)).
+Proof.
+  intros d c m cq C F. rewrite (sql_compile_correct_proof d (SubqueryMarker (Alias c (Some m))) cq C F). reflexivity.
+Qed.
+Print Assumptions sql_compiles_alias_subquery_correctly.
+
+(* non-vacuity: a window column, alias(), and a filter on the re-rooted window column *)
+Example alias_pipeline_example :
+  let d := [("t"%string, [[VInt 1; VInt 4]; [VInt 1; VInt 2]; [VInt 2; VInt (-7)]])] in
+  let w := Mutate (Source "t" [("g"%string, 1%N); ("x"%string, 2%N)])
+                  [("s"%string, 3%N, EFn Op_sum [ECol 2%N] true [ECol 1%N] [])] in
+  let m := [(1%N, 11%N); (2%N, 12%N); (3%N, 13%N)] in
+  let flt := fun c => Filter c [EFn Op_greater_than [ECol 13%N; ELit (VInt 0)] false [] []] in
+  flat_ok (flt (SubqueryMarker (Alias w (Some m)))) = true
+  /\ pflat_ok d (flt (Alias w (Some m))) = true
+  /\ f_rows (export_ref (sem_ref d (flt (Alias w (Some m))))) = [[VInt 1; VInt 4; VInt 6]; [VInt 1; VInt 2; VInt 6]].
+Proof. vm_compute. repeat split; reflexivity. Qed.
